@@ -73,7 +73,22 @@ def discharge(obligations, timeout_ms=20000, jobs=None, use_cvc5=True, cvc5_all=
             continue
         uniq[key] = dict(oid=ob.oid, kind=ob.kind, lineno=ob.lineno, hash=h, smt2=text, note=ob.note)
         order.append(key)
-    work = [(k, uniq[k]["smt2"], timeout_ms) for k in order]
+    return discharge_texts([uniq[k] for k in order], timeout_ms, jobs, use_cvc5, cvc5_all)
+
+
+def discharge_texts(items, timeout_ms=20000, jobs=None, use_cvc5=True, cvc5_all=False):
+    """items: dicts with oid, kind, lineno, hash, smt2, note."""
+    jobs = jobs or min(16, os.cpu_count() or 4)
+    uniq, order = {}, []
+    for it in items:
+        key = (it["oid"], it["hash"])
+        if key not in uniq:
+            uniq[key] = it
+            order.append(key)
+
+    def tmo(k):
+        return 2000 if uniq[k]["kind"] == "vacuity" else timeout_ms
+    work = [(k, uniq[k]["smt2"], tmo(k)) for k in order]
     results = {}
     if work:
         with mp.get_context("fork").Pool(min(jobs, len(work))) as pool:
@@ -81,7 +96,7 @@ def discharge(obligations, timeout_ms=20000, jobs=None, use_cvc5=True, cvc5_all=
                 results[key] = dict(z3=res, z3_s=secs, z3_extra=extra)
     if use_cvc5:
         again = [(k, uniq[k]["smt2"], timeout_ms) for k in order
-                 if cvc5_all or results[k]["z3"] in ("unknown", "error")]
+                 if uniq[k]["kind"] != "vacuity" and (cvc5_all or results[k]["z3"] in ("unknown", "error"))]
         if again:
             with mp.get_context("fork").Pool(min(jobs, len(again))) as pool:
                 for key, res, secs, extra in pool.imap_unordered(_cvc5_worker, again):
